@@ -18,6 +18,46 @@ type monitors struct {
 	log      *truthLog
 	sizes    []int64 // sizes of the mirror checkpoints written so far (effective Replaces)
 	fails    int
+
+	// monotone: "N never decreases", separately for the mirror register, the published checkpoint
+	// object and the cosignatures released in 200 answers (in the order they happen)
+	maxLock, maxPub, maxSig int64
+	monoChecks              int
+	monoProblems            []string
+}
+
+func (m *monitors) recorded(size int64) {
+	m.monoChecks++
+	if size < m.maxLock {
+		m.monoProblems = append(m.monoProblems, fmt.Sprintf("mirror register went from size %d back to %d", m.maxLock, size))
+	}
+	m.maxLock = max(m.maxLock, size)
+}
+
+func (m *monitors) published(size int64) {
+	m.monoChecks++
+	if size < m.maxPub {
+		m.monoProblems = append(m.monoProblems, fmt.Sprintf("published mirror checkpoint went from size %d back to %d", m.maxPub, size))
+	}
+	m.maxPub = max(m.maxPub, size)
+}
+
+func (m *monitors) released(size int64) {
+	m.monoChecks++
+	if size < m.maxSig || size < m.maxLock {
+		m.monoProblems = append(m.monoProblems, fmt.Sprintf("a mirror cosignature for size %d was released after one for size %d (mirror register at %d)",
+			size, m.maxSig, m.maxLock))
+	}
+	m.maxSig = max(m.maxSig, size)
+}
+
+// monotone: one line per event in which a mirror checkpoint was recorded, published or released
+func (m *monitors) monotone(s *sim) {
+	if m.monoChecks == 0 {
+		return
+	}
+	m.line(s, "monotone", m.monoProblems)
+	m.monoChecks, m.monoProblems = 0, nil
 }
 
 func (m *monitors) line(s *sim, name string, problems []string) {
